@@ -24,7 +24,10 @@ Acc = let acc = `[]` in (/[ab]/ |> `acc.append`)* >> `acc`
 '''
 OTHER = 'start = Num*\nignore / +/\nclass Num { n: /[0-9]+/ |> `int` }\n'
 CHILD = ('grammar %(child)s extends %(parent)s\nignore /~+/\nclass W { w: /[abc]+/ }\nItem = Pair | W | T("-")\nExtra = "z"\n')
-CHILD_TEXTS = ['-~ab c:~a', 'a:b -c', '-ab b:a']
+CHILD_TEXTS = ['-~ab c:~a', 'a:b -c', '-ab b:a', 'q:a -q']
+# a revision of the scenario grammar, compiled under the same name (W also accepts q)
+DESC2 = DESC.replace('/[ab\\n]+/', '/[abq\\n]+/').replace('ignore / +/\n', 'Qq = "q"\n')
+assert DESC2 != DESC and 'ignore' not in DESC2      # (structurally different: no ignore declaration, one more rule)
 
 # the calls: (entry, text, pos, fullparse)
 CALLS = [
@@ -75,15 +78,19 @@ def baseline():
         base[i] = outcome(build(), c)
     base['raise'] = outcome(build(), CALLS[0], raising=True)
     # the derived grammar, used alone right after it was built on a fresh base
-    for j, t in enumerate(CHILD_TEXTS):
-        uid = e1.unique_name('c18b')
-        build(uid)
-        b = impl.build(CHILD % {'child': uid + '_child', 'parent': uid})
-        if b[0] != 'OK':
-            raise RuntimeError('child grammar does not compile: %r' % (b,))
-        base[('child', j)] = outcome(b[1], (None, t, 0, True))
-        impl.uninstall(uid + '_child')
-        impl.uninstall(uid)
+    for variant in ('v1', 'v2'):
+        for j, t in enumerate(CHILD_TEXTS):
+            uid = e1.unique_name('c18b')
+            if variant == 'v1':
+                build(uid)
+            else:
+                impl.build(DESC2 % {'head': 'grammar %s' % uid})
+            b = impl.build(CHILD % {'child': uid + '_child', 'parent': uid})
+            if b[0] != 'OK':
+                raise RuntimeError('child grammar does not compile: %r' % (b,))
+            base[('child', variant, j)] = outcome(b[1], (None, t, 0, True))
+            impl.uninstall(uid + '_child')
+            impl.uninstall(uid)
     return base
 
 
@@ -131,18 +138,24 @@ def history_ops():
             + [('use-child', j) for j in range(len(CHILD_TEXTS))])
 
 
+NAME_OPS = [('build-child',), ('rebuild-same-name',), ('use-child', 0), ('use-child', 3), ('call', 0)]
+
+
 def history_job(job, st):
-    _, first_op, depth = job
+    _, first_op, depth = job[:3]
     base = st['base']
     res = new_res()
     sigs = set()
-    ops = history_ops()
+    ops = NAME_OPS if len(job) > 3 else history_ops()
     for L in range(1, depth + 1):
         for rest in itertools.product(ops, repeat=L - 1):
             hist = (first_op,) + rest
             uid = e1.unique_name('c18h')
             g = build(uid)
             child = None
+            installed = 'v1'          # which description the name denotes at the moment
+            child_variant = None
+            nchild = 0
             res['ctr']['states'] += 1
             try:
                 for k, op in enumerate(hist):
@@ -160,24 +173,27 @@ def history_job(job, st):
                             got, exp = b, 'module'
                     elif op[0] == 'rebuild-same-name':
                         # a new grammar reusing the name (different description): the existing module object must not change
-                        b = impl.build('grammar %s\nstart = "q"\nclass W { w: "q" }\n' % uid)
+                        b = impl.build(DESC2 % {'head': 'grammar %s' % uid})
                         got = exp = None
+                        installed = 'v2'
                         if b[0] != 'OK':
                             got, exp = b, 'module'
                     else:
                         # a grammar that extends this one (by name: only meaningful while the name still denotes it)
                         got = exp = None
                         if op[0] == 'build-child':
-                            if sys.modules.get(uid) is g and child is None:
-                                b = impl.build(CHILD % {'child': uid + '_child', 'parent': uid})
-                                if b[0] != 'OK':
-                                    got, exp = b, 'module'
-                                else:
-                                    child = b[1]
+                            # a grammar extending whatever the name denotes now (a new child every time)
+                            nchild += 1
+                            b = impl.build(CHILD % {'child': '%s_child%d' % (uid, nchild), 'parent': uid})
+                            if b[0] != 'OK':
+                                got, exp = b, 'module'
+                            else:
+                                child, child_variant = b[1], installed
                         elif child is not None:
-                            # use the derived grammar: it behaves as when used alone, whatever happened to the base before
+                            # use the derived grammar: it behaves as when built and used alone on the description it
+                            # extended, whatever happened to that name before or since
                             got = outcome(child, (None, CHILD_TEXTS[op[1]], 0, True))
-                            exp = base[('child', op[1])]
+                            exp = base[('child', child_variant, op[1])]
                     res['ctr']['cases'] += 1
                     if k > 0:
                         res['ctr']['nontrivial'] += 1
@@ -191,7 +207,8 @@ def history_job(job, st):
                             return res          # a runaway call: nothing after it can be trusted, abandon the job
                 res['sets']['state_hashes'].add(state_hash(g))
             finally:
-                impl.uninstall(uid + '_child')
+                for k in range(1, nchild + 1):
+                    impl.uninstall('%s_child%d' % (uid, k))
                 impl.uninstall(uid)
     res['sample'] = {'history': [list(o) for o in ((first_op,) + tuple(ops[:depth - 1]))], 'calls': [list(map(repr, c)) for c in CALLS[:3]]}
     return res
@@ -300,6 +317,30 @@ def schedule_job(job, st):
 
 
 # --- (iii) re-entrancy and aborts at every callback point ----------------------------------------------
+def wreck(g, v):
+    """mutate a (discarded) nested result in place: reverse and empty lists, overwrite fields"""
+    seen = set()
+    todo = [v]
+    while todo:
+        x = todo.pop()
+        if id(x) in seen:
+            continue
+        seen.add(id(x))
+        if isinstance(x, list):
+            todo.extend(x)
+            x.reverse()
+            del x[1:]
+        elif isinstance(x, tuple):
+            todo.extend(x)
+        elif impl.is_obj(x):
+            for f in x._fields:
+                todo.append(getattr(x, f))
+                try:
+                    setattr(x, f, 'WRECKED')
+                except Exception:
+                    pass
+
+
 def reentrancy_job(job, st):
     _, ci, pairs = job
     base = st['base']
@@ -317,7 +358,11 @@ def reentrancy_job(job, st):
     outcome(g, call)
     g.HOOKS.pop(ident, None)
     ncb = cnt[0]
-    devs = [('nested-discard', i) for i in range(len(CALLS))] + [('nested-embed', i) for i in range(len(CALLS))] + [('raise', 0)]
+    # nested-same: the nested parse is given the VERY text object the outer call is parsing (same entry), and its
+    # result is then mutated in place and discarded: the outer result must not notice
+    devs = ([('nested-discard', i) for i in range(len(CALLS))] + [('nested-embed', i) for i in range(len(CALLS))]
+            + [('raise', 0), ('nested-same', ci)])
+    outer_text = e1.fresh(call[1])
     points = [(k,) for k in range(ncb)]
     if pairs:
         points += [(k1, k2) for k1 in range(ncb) for k2 in range(k1 + 1, ncb)]
@@ -337,15 +382,18 @@ def reentrancy_job(job, st):
                 g.HOOKS.pop(ident, None)
                 try:
                     ent, text, pos, full = CALLS[arg]
-                    o = impl.run(impl.entry(g, ent), e1.fresh(text), pos, full, spans=True, time_limit=20.0, raw=True)
+                    t_in = outer_text if dev == 'nested-same' else e1.fresh(text)
+                    o = impl.run(impl.entry(g, ent), t_in, pos, full, spans=True, time_limit=20.0, raw=True)
                     r = o.get('value')
                     inner_out.append((arg, (o['kind'], impl.canon(r, True) if o['kind'] in ('RET', 'PARTIAL') else None, o.get('index'),
                                             o.get('line'), o.get('column'), o.get('message'), o.get('type'))))
+                    if dev == 'nested-same':
+                        wreck(g, r)
                 finally:
                     g.HOOKS[ident] = hook
-                return v if dev == 'nested-discard' else (v, r)
+                return v if dev in ('nested-discard', 'nested-same') else (v, r)
             g.HOOKS[ident] = hook
-            o = outcome(g, call)
+            o = outcome(g, (call[0], outer_text, call[2], call[3]), keep_text=True)
             g.HOOKS.pop(ident, None)
             res['ctr']['cases'] += 1
             res['ctr']['states'] += 1
@@ -361,7 +409,7 @@ def reentrancy_job(job, st):
             for arg, io in inner_out:
                 if io != base[arg]:
                     add_viol(res, sigs, 're-entrancy nested-call-outcome-differs', case, base[arg], io)
-            if all(k == 'nested-discard' for k in kinds) and o != base[ci]:
+            if all(k in ('nested-discard', 'nested-same') for k in kinds) and o != base[ci]:
                 add_viol(res, sigs, 're-entrancy outer-call-disturbed-by-nested-parse', case, base[ci], o)
             if 'raise' in kinds and 'nested-embed' not in kinds:
                 first_raise = kinds.index('raise')
@@ -435,7 +483,59 @@ def pair_job(job, st):
     return res
 
 
+def pair_schedule_job(job, st):
+    """two threads parse ONE text object, one through the base grammar and one through the derived grammar"""
+    _, text, bound = job
+    res = new_res()
+    sigs = set()
+    uid, m = pair_build()
+    try:
+        files = {m['base'].parse.__code__.co_filename, m['child'].parse.__code__.co_filename}
+        shared = e1.fresh(text)
+        exp = [outcome(m['base'], (None, text, 0, True)), outcome(m['child'], (None, text, 0, True))]
+        cache = {}
+
+        def execute(first, sched):
+            outcome(m['base'], (None, 'y', 0, True))
+            bodies = [lambda: outcome(m['base'], (None, shared, 0, True), keep_text=True),
+                      lambda: outcome(m['child'], (None, shared, 0, True), keep_text=True)]
+            ex = sx.Execution(bodies, files, sched, False)
+            results, steps, trace = ex.run(first)
+            return results, steps, trace, ex.hung
+
+        def steps_of(first, sched):
+            key = (first, tuple(sorted(sched.items())))
+            if key not in cache:
+                cache[key] = execute(first, sched)[1]
+            return cache[key]
+        for first, sched in sx.schedules(2, steps_of, bound):
+            results, steps, trace, hung = execute(first, sched)
+            res['ctr']['cases'] += 1
+            res['ctr']['states'] += 1
+            res['ctr']['transitions'] += sum(steps)
+            if trace:
+                res['ctr']['nontrivial'] += 1
+            if hung or results != exp:
+                case = {'threads': ['base.parse(t)', 'derived.parse(t)'], 'text': text, 'first': first,
+                        'schedule': [[list(k), v] for k, v in sorted(sched.items())]}
+                r2, r3 = execute(first, sched), execute(first, sched)
+                if (r2[0], r2[2]) != (r3[0], r3[2]):
+                    add_viol(res, sigs, 'schedule NONDETERMINISTIC-REPLAY (harness)', case, 'identical replays', 'divergence')
+                else:
+                    add_viol(res, sigs, 'schedule base||derived-on-one-text-object outcome-depends-on-interleaving', case, exp, results)
+                if hung:
+                    res['_retire'] = True
+                    return res
+    finally:
+        impl.uninstall(uid + '_c')
+        impl.uninstall(uid)
+    res['sample'] = {'threads': ['base.parse(t)', 'derived.parse(t)'], 'text': text, 'preemption_bound': bound}
+    return res
+
+
 def dispatch(job, st):
+    if job[0] == 'pair-sched':
+        return pair_schedule_job(job, st)
     if job[0] == 'pair':
         return pair_job(job, st)
     if job[0] == 'hist':
@@ -449,8 +549,13 @@ def all_jobs(tier):
     depth = 3 if tier == 'quick' else 4
     for op in history_ops():
         yield ('hist', op, depth)
+    # longer histories over the operations that build, rebuild (same name) and use grammars
+    for op in NAME_OPS:
+        yield ('hist', op, 5 if tier == 'quick' else 6, 'names')
     for op in PAIR_OPS:
         yield ('pair', op, 4 if tier == 'quick' else 5)
+    for text in ('xx', 'xyx', 'x x', 'xx!'):
+        yield ('pair-sched', text, 1)
     for ci in range(len(CALLS)):
         yield ('reent', ci, tier == 'thorough' and ci in (0, 2, 6))
     # threads: pairs of parse calls (different texts, offsets, entries; failing; raising), line granularity
@@ -484,7 +589,7 @@ def run(tier, seed):
     chk.rule = ('one grammar (classes, ignore, template, inline-Python callback, error paths): (i) ALL histories of length <= 3 (thorough 4) '
                 'over 18 operations (9 parse calls with different texts / offsets / entry rules / fullparse, a call abandoned by a raising '
                 'callback, building another grammar, building a grammar that reuses the name, building a grammar that extends it and adds an ignore, 3 calls through that derived grammar), each '
-                'replayed on a freshly built module, plus all histories of length <= 4 (5) over 6 calls through a base grammar without ignore and a derived grammar with one; (ii) ALL thread interleavings with <= 1 preemption of every pair of 8 call bodies (incl. '
+                'replayed on a freshly built module, all histories of length <= 5 (6) over the 5 operations that build, rebuild under the same name and use grammars, plus all histories of length <= 4 (5) over 6 calls through a base grammar without ignore and a derived grammar with one; (ii) ALL thread interleavings with <= 1 preemption of every pair of 8 call bodies (incl. '
                 'failing and raising ones) and of a parse against a concurrent Grammar() construction, <= 2 preemptions on reduced pairs '
                 '(thorough: 3 threads, opcode granularity), scheduling points = line events of the generated module under a baton '
                 'scheduler; (iii) EVERY single deviation (nested parse discarded / embedded x 7 calls, raise) at every inline-Python '
